@@ -215,7 +215,7 @@ def run(ck):
                "%s:%s" % (newb.file, newb.line))
     ck.require(all(b.crate == leaf.CIRCUIT_CRATE for b, _, _ in callers), "WMC", "new_internal-callers",
                "new_internal is only called inside the circuit crate", detail=[b.path for b, _, _ in callers])
-    if ck.tier == "thorough":
+    if True:   # both tiers: the `profile` feature swaps in `new_profiled`, a second constructor of the same circuit
         prog2 = ck.extract("profile")
         v2 = leaf.LeafView(ck, prog2, entry=r"WormholeCircuit::new_profiled$")
         check_view(ck, v2, tag="profile:")
